@@ -14,7 +14,8 @@ EXPLANATION = ("The clause decided is the agreement of the metadata reader with 
                "pairs the block spells; a few hand-made blocks add the cases the statement names (values containing ':' and '=', "
                "repeated keys, entries without value, an empty value, a block without the leading ':'). (R17.2) find() and "
                "operator[] walk the same iterator and answer with the first entry whose key compares equal (strcmp == 0). "
-               "Arbitrary byte strings as keys/values and MetaContainer::length are not decided.")
+               "(R17.3) MetaContainer::length, evaluated on the same blocks for a container built on the block as written and behind the "
+               "stripped ':', reports the block's byte length including its terminator. Arbitrary byte strings as keys/values are not decided.")
 TRUSTED = ["clang 14 AST", "sa/fdeval.py", "witness/meta_matrix.cpp, witness/sugar_matrix.cpp (macro expansions)"]
 ASSUMPTIONS = ["the blocks applications hand to the iterator are produced by the macros of port-sugar.h (the property's anchors)"]
 
@@ -25,12 +26,15 @@ HANDMADE = [
     ("k\0=v\0:l\0", [("k", "v"), ("l", None)]),
     (":only\0", [("only", None)]),
     (":e\0=\0:f\0", [("e", ""), ("f", None)]),
+    (":sep\0=:\0:d\0=7\0", [("sep", ":"), ("d", "7")]),
+    (":u\0=\0:v\0=:x=y\0:w\0", [("u", ""), ("v", ":x=y"), ("w", None)]),
 ]     # (the empty block is outside the property: "blocks of 1..8 entries"; the iterator yields one entry with an empty key there)
 
 
 def run(ctx):
     u = ctx.ast("ports.cpp")
     ctx.rule("R17.1", "READER=WRITER: the metadata iterator, evaluated over every metadata block the port macros produce (and the hand-made blocks of the statement's corner cases), yields in order exactly the (key, value) pairs the block spells")
+    ctx.rule("R17.3", "LENGTH: MetaContainer::length, evaluated on every such block for a container built on the block as written (path_search) and on the block after Port::meta() stripped the leading ':', reports the block's byte length including its terminator")
     ctx.rule("R17.2", "LOOKUP: MetaContainer::find and operator[] range over the container itself and answer with the first entry whose title compares equal (strcmp == 0), NULL after the loop")
     blocks = {}
     mu = ctx.ast("meta_matrix.cpp")
@@ -64,6 +68,29 @@ def run(ctx):
                what="the metadata iterator reads %s as %s, the block spells %s" % (name, got if isinstance(got, str) else got[:4], expect[:4]))
     ctx.require_count("R17.1", 60)
 
+    # ---- R17.3: the reported length, evaluated on the same blocks, for both ways the library builds a container
+    fl = u.function("MetaContainer::length")
+    nlen = 0
+    for name, block, expect in cases:
+        if not block.endswith("\0") or not block.startswith(":"):
+            continue                     # no double NUL inside the literal / nothing to strip: not a block the macros write
+        got = {}
+        for how, skip in (("as written (path_search)", 0), ("after Port::meta() stripped the ':'", 1)):
+            try:
+                got[how] = MI.length(u, block, skip)
+            except FD.Unknown as e:
+                if "outside the metadata block" in str(e):
+                    got[how] = "reads outside the block"
+                else:
+                    raise AnalysisBroken("R17.3: MetaContainer::length not evaluable on %s: %s" % (name, e))
+        nlen += 1
+        want = len(block) + 1            # the literal's bytes including the terminator the compiler appends
+        ctx.ob("R17.3", name, all(v == want for v in got.values()), site=A.where(fl),
+               detail={"block": block.replace("\0", "\\0")[:120], "reported": got, "byte_length_with_terminator": want},
+               key="R17.3:%s" % name,
+               what="MetaContainer::length reports %s for %s, the block has %d bytes including its terminator" % (got, name, want))
+    ctx.require_count("R17.3", 55)
+
     for q, field in (("MetaContainer::find", None), ("MetaContainer::operator[]", "value")):
         fn = u.function(q)
         loops = [x for x in A.walk(u.body(fn)) if x.get("kind") == "CXXForRangeStmt"]
@@ -89,5 +116,35 @@ def run(ctx):
             null_after = len(tail) == 1 and (A.int_literal(A.kids(tail[0])[0]) == 0 or any(y.get("kind") in ("GNUNullExpr", "CXXNullPtrLiteralExpr") for y in A.walk(tail[0])))
             det.update({"ranges_over_this": over_this, "exact_key_comparison": eq, "returns_the_entry": ret_ok, "null_when_absent": null_after})
             ok = over_this and eq and ret_ok and null_after
+        if not loops and field is not None:
+            # forwarding form: `return find(key).<field>` (directly or through a local holding find's result); find's own
+            # loop is obliged above, and an absent key must still read as NULL: MetaIterator(NULL).<field> evaluated
+            fcalls = [c for c in A.calls_in(u.body(fn)) if A.callee_name(c) == "find" and "MetaIterator" in (A.qtype(c) or "")]
+            ps = u.params(fn)
+            rets = [r_ for r_ in A.walk(u.body(fn)) if r_.get("kind") == "ReturnStmt"]
+            holders = set()
+            for v in A.walk(u.body(fn)):
+                if v.get("kind") == "VarDecl" and A.kids(v) and any(c in list(A.walk(v)) for c in fcalls):
+                    holders.add(v.get("id"))
+            fwd_key = len(fcalls) == 1 and len(A.call_args(fcalls[0])) >= 1 and A.ref_id(A.call_args(fcalls[0])[-1]) == ps[0]["id"]
+
+            def _from_find(r_):
+                e = A.strip_casts(A.kids(r_)[0]) if A.kids(r_) else None
+                if e is None or e.get("kind") != "MemberExpr" or e.get("name") != field:
+                    return False
+                b = A.strip_casts(A.kids(e)[0])
+                while b.get("kind") in ("MaterializeTemporaryExpr", "CXXBindTemporaryExpr", "ExprWithCleanups", "ParenExpr", "ImplicitCastExpr"):
+                    b = A.strip_casts(A.kids(b)[0])
+                return (b in fcalls) or (A.ref_id(b) in holders)
+            ret_ok = len(rets) == 1 and _from_find(rets[0])
+            branches = [x for x in A.walk(u.body(fn)) if x.get("kind") in ("IfStmt", "ConditionalOperator", "SwitchStmt", "WhileStmt", "ForStmt", "DoStmt")]
+            absent = None
+            try:
+                absent = MI._run_advance(u, u.function("metaiterator_advance"), MI._Mem(""), 0, 0)
+            except FD.Unknown as e:
+                absent = str(e)
+            det.update({"forwards_to_find_with_the_key": fwd_key, "returns_the_entry": ret_ok, "unconditional": not branches,
+                        "iterator_built_on_NULL": list(absent) if isinstance(absent, tuple) else absent})
+            ok = fwd_key and ret_ok and not branches and absent == (0, 0)
         ctx.ob("R17.2", q, ok, site=A.where(fn), detail=det,
                what="%s does not answer with the first entry whose key compares equal: %s" % (q, det))
